@@ -60,6 +60,7 @@ func c04Bounds() map[string]c04Bound {
 	m["cbk"] = c04Bound{8, 1 << 19} // cipher tables (constant)
 	m["wire"] = c04Bound{8, 4*65535 + 1<<16}
 	m["rp"] = c04Bound{4200, 1 << 20}     // zlib/gzip may expand 1032:1 (stdlib, assumption)
+	m["rpseq"] = c04Bound{4200, 1 << 20}
 	m["handle"] = c04Bound{4200, 1 << 21} // + reply path
 	m["recv"] = c04Bound{8, 1 << 20}
 	m["fragseq"] = c04Bound{16, 1 << 16}
@@ -83,7 +84,7 @@ var c04Entry = map[string]string{
 	"r.systemio": "result.SystemIO", "r.script": "result.Script",
 	"s.bytes": "data.reader.Bytes", "s.strlist": "data.reader.ReadStringList",
 	"dns": "transform.DNS.Read", "b64": "transform.B64.Read", "cbk": "crypto.CBK.Read",
-	"wire": "com.Packet.Unmarshal", "rp": "c2.readPacket", "handle": "c2.handle", "recv": "c2.receive", "fragseq": "c2.receive(fragment sequence)", "hello": "c2.Listener.talk(key material)", "process": "c2.conn.process",
+	"wire": "com.Packet.Unmarshal", "rp": "c2.readPacket", "rpseq": "c2.readPacket(sequence)", "handle": "c2.handle", "recv": "c2.receive", "fragseq": "c2.receive(fragment sequence)", "hello": "c2.Listener.talk(key material)", "process": "c2.conn.process",
 	"resolve": "c2.conn.resolve", "procmulti": "c2.conn.processMultiple", "json": "c2.Session.JSON",
 	"hang": "c2.readDeviceInfo", "hsw": "c2.handle", "e2e": "e2e", "e2eraw": "c2.Listener(e2e)",
 }
@@ -259,6 +260,15 @@ func c04Judge(c *Ctx, o *c04Op, bounds map[string]c04Bound) {
 	}
 	if o.model {
 		c.Op(o.line, ans)
+	}
+	if o.name == "rpseq" && o.died == "" && !strings.HasPrefix(ans, "panic") && !strings.HasPrefix(ans, "hang") && !strings.Contains(ans, "after=6/6") {
+		c.Fail("serve", "keeps-serving:"+entry, "after the first connection's bytes a well-formed packet through the same stack was not read back: "+ans, in)
+	}
+	if o.name == "resolve" && strings.Contains(ans, "own=1") {
+		// Listener.clientSet(i, c) then moves the Session's queued packets into its own queue
+		// (`for v.chn = c; len(v.send) > 0 { c <- <-v.send }` with c == v.send): with anything queued
+		// the handler never returns and holds the Server lock
+		c.Fail("serve", "self-redirect:"+entry, "a tag that names the connection's own client was recorded as a sub-client of the connection: "+ans, in)
 	}
 	if o.name == "fragseq" {
 		for _, t := range strings.Fields(ans) {
@@ -973,6 +983,9 @@ func runC04(c *Ctx) {
 		}
 		add(fmt.Sprintf("rp %d %s", stack, hx(b)), len(b), false)
 		add(fmt.Sprintf("handle %d %s", stack, hx(b)), len(b), false)
+		if i%4 == 1 { // the same bytes, followed by six well-formed packets through the same stack
+			add(fmt.Sprintf("rpseq %d %s", stack, hx(b)), len(b), false)
+		}
 		if r.Chance(20) {
 			add(fmt.Sprintf("b64 %d %s", r.Intn(3), hx(b)), len(b), false)
 			add("cbk "+hx(b), len(b), false)
